@@ -18,12 +18,14 @@
   The C code works on read buffers; this automaton consumes one byte at a time, so it cannot
   depend on TCP segmentation by construction.  It follows the C for every input except where the
   C itself depends on how the bytes were cut:
-   * the CR of a blank line that precedes a keep-alive request: the automaton waits for the LF
-     (the property-conforming behaviour); the C answers 400 when the CR is the only byte in the
-     read buffer;
    * a head whose first byte is < 0x20: the automaton rejects with 400 at that byte (as the C
      does when the head is still incomplete); if the complete head is already buffered the C
      reports the parser's status for it (400/501) instead.  Both are rejections.
+   * a chunked trailer section longer than max-request-field-size: the automaton ends the body
+     (keep-alive off) when the limit is reached; the C decides per read buffer and accepts the
+     section if its terminating empty line is in the buffer it examines.
+  (The CR of a blank line that precedes a keep-alive request: the automaton waits for the LF; the
+  C answered 400 when the CR was the only byte in the read buffer until fix 6cde26c, finding D27.)
 -/
 import LtVerif.Model.H1Parse
 import LtVerif.Model.H1Chunked
